@@ -98,6 +98,25 @@ inline void push_reply(const std::string& key, long long v) {
     replies()[key].push_back(v);
 }
 
+// ---- scripted re-entry: while handling "side/port/event" the handler does something more --
+inline std::map<std::string, std::function<void()>>& nested() {
+    static std::map<std::string, std::function<void()>> n; return n; }
+inline void set_nested(const std::string& key, std::function<void()> f) {
+    std::lock_guard<VMON_REAL_MUTEX> g(mtx());
+    nested()[key] = std::move(f);
+}
+inline void run_nested(const std::string& key) {
+    std::function<void()> f;
+    {
+        std::lock_guard<VMON_REAL_MUTEX> g(mtx());
+        auto it = nested().find(key);
+        if (it == nested().end()) return;
+        f = std::move(it->second);
+        nested().erase(it);
+    }
+    if (f) f();
+}
+
 // optional yield hook (thread-schedule perturbation in TSan runs / deterministic scheduler)
 inline std::function<void(const char*)>& yield_hook() { static std::function<void(const char*)> h; return h; }
 inline void yield_point(const char* where) { if (yield_hook()) yield_hook()(where); }
